@@ -45,10 +45,21 @@ pub enum V {
     Vector(Vec<u32>),
     List(Vec<V>),
     Map(Vec<(String, V)>),
+    /// a large value described compactly: kind 0 = string of `len` bytes, 1 = bytes, 2 = list of `len / 8` integers
+    /// (lengths around and above 64 KiB: one WAL record then exceeds any small internal buffer or limit)
+    Big { kind: u8, len: u32 },
 }
 
 pub fn to_value(v: &V) -> Value {
     match v {
+        V::Big { kind, len } => {
+            let n = *len as usize;
+            match kind % 3 {
+                0 => Value::from("abcdefghij".repeat(n / 10 + 1)[..n].to_string().as_str()),
+                1 => Value::from((0..n).map(|i| (i % 251) as u8).collect::<Vec<u8>>()),
+                _ => Value::List((0..(n / 8).max(1)).map(|i| Value::Int64(i as i64)).collect::<Vec<_>>().into()),
+            }
+        }
         V::Null => Value::Null,
         V::Bool(b) => Value::Bool(*b),
         V::Int(i) => Value::Int64(*i),
@@ -201,6 +212,8 @@ fn leaf_value() -> impl Strategy<Value = V> {
             1 => Just(V::Ts(i64::MIN)), 1 => Just(V::Ts(i64::MAX)), 1 => Just(V::Ts(0)),
         ],
         2 => proptest::collection::vec(f32_bits(), 0..6).prop_map(V::Vector),
+        1 => (0u8..3, prop_oneof![3 => 65_000u32..66_500, 2 => 100_000u32..200_000, 1 => 30_000u32..64_000])
+            .prop_map(|(kind, len)| V::Big { kind, len }),
     ]
 }
 
